@@ -39,7 +39,112 @@ def match_known(known, prop, o):
     return None
 
 
+# ------------------------------------------------------------------------------------------------ bounded legs (conform crate)
+TARGET = os.path.join(VERIF, "target")
+CONFORM_BIN = os.path.join(TARGET, "debug", "tcss-conform")
+_built = {"done": False}
+
+
+def repo_hash():
+    import hashlib
+    h = hashlib.sha256()
+    roots = [os.path.join(REPO, d) for d in ("core", "server", "sqlite")] + [os.path.join(VERIF, "conform", "src")]
+    files = [os.path.join(REPO, "Cargo.toml"), os.path.join(REPO, "Cargo.lock"), os.path.join(VERIF, "conform", "Cargo.toml")]
+    for r in roots:
+        for dp, dn, fn in os.walk(r):
+            dn[:] = [d for d in dn if d != "target"]
+            for f in fn:
+                if f.endswith((".rs", ".toml")):
+                    files.append(os.path.join(dp, f))
+    for f in sorted(files):
+        try:
+            h.update(f.encode())
+            h.update(open(f, "rb").read())
+        except OSError:
+            pass
+    return h.hexdigest()
+
+
+def conform_build():
+    if _built["done"]:
+        return
+    env = dict(os.environ, CARGO_NET_OFFLINE="true", CARGO_TARGET_DIR=TARGET)
+    p = subprocess.run(["cargo", "build", "--offline", "--manifest-path", os.path.join(VERIF, "conform", "Cargo.toml")], capture_output=True, text=True, env=env)
+    if p.returncode != 0:
+        raise Inconclusive("the bounded-leg crate does not build against /repo's current tree (public API changed?): " + p.stderr[-400:])
+    _built["done"] = True
+
+
+def conform_leg(leg, tier, seed, timeout=1500):
+    """run one leg of the conform binary (cached on the content of /repo + conform sources)"""
+    key = repo_hash()[:24]
+    cdir = os.path.join(VERIF, "gen", "cache")
+    os.makedirs(cdir, exist_ok=True)
+    cp = os.path.join(cdir, "leg-%s-%s-%s-%s.json" % (leg, tier, seed, key))
+    if os.path.exists(cp) and not os.environ.get("VERIF_NOCACHE"):
+        try:
+            d = json.load(open(cp))
+            d["cached_for_identical_sources"] = True
+            return d
+        except Exception:
+            pass
+    conform_build()
+    t0 = time.time()
+    try:
+        p = subprocess.run([CONFORM_BIN, leg, "--tier", tier, "--seed", str(seed)], capture_output=True, text=True, timeout=timeout)
+    except subprocess.TimeoutExpired:
+        raise Inconclusive("bounded leg %s timed out" % leg)
+    if p.returncode != 0:
+        # a panic inside the real code under exploration (e.g. debug overflow) is itself a finding of the leg
+        return {"leg": leg, "crashed": True, "stderr": p.stderr[-1500:], "violations": [{"tags": ["*"], "what": "the real code panicked during the bounded run: " + p.stderr[-600:], "trace": []}], "wall_s": time.time() - t0}
+    try:
+        d = json.loads(p.stdout[p.stdout.index("{"):])
+    except Exception:
+        raise Inconclusive("bounded leg %s produced no report: %s" % (leg, p.stderr[-300:]))
+    d["wall_s"] = round(time.time() - t0, 2)
+    json.dump(d, open(cp, "w"))
+    return d
+
+
+def bounded(leg, describe):
+    def run(prop, tier, seed):
+        d = conform_leg(leg, tier, seed)
+        vs = [v for v in d.get("violations", []) if prop in v.get("tags", []) or "*" in v.get("tags", [])]
+        rep = {"name": "bounded:" + leg, "bounded": True, "status": "violation" if vs else "passed", "what": describe,
+               "wall_s": d.get("wall_s"), "cached_for_identical_sources": d.get("cached_for_identical_sources", False)}
+        for k in ("parts", "cases", "cases_with_injected_fault", "cases_where_B_actually_interleaved", "bound", "samples", "requests", "distinct_outcomes"):
+            if k in d:
+                rep[k] = d[k]
+        rep["violations"] = [{"kind": "bounded", "name": "bounded:" + leg, "what": v.get("what", "")[:1500], "counterexample": v} for v in vs[:3]]
+        return rep
+    return {"name": "bounded:" + leg, "tiers": ("quick", "thorough"), "run": run, "required": True}
+
+
+EXPLORE = bounded("explore", "model-based exploration of the real Server over InMemoryStorage, SqliteStorage and SqliteStorage re-opened before every request; every response and the complete stored state (through the StorageTxn getters and, for SQLite, independent raw SQL) compared with the executable contract after every request")
+FAULTS = bounded("faults", "every storage call of a request (begin, reads, writes, commit) made to fail before / after taking effect, on SQLite behind a fault-injecting Storage wrapper")
+INTERLEAVE = bounded("interleave", "a complete competing library request placed between any two transactions of an HTTP request, on three backend configurations; outcome compared with both one-at-a-time orders")
+
+
 def search_counterexample(prop, v, tier):
+    """a failed deductive obligation: look for a concrete failing input with the bounded legs"""
+    legs = []
+    if prop in ("C05",):
+        legs.append("faults")
+    if prop in ("C03",):
+        legs.append("interleave")
+    if prop in ("C14", "C15", "C16", "C20", "C06"):
+        legs.append("http")
+    legs.append("explore")
+    for leg in legs:
+        try:
+            d = conform_leg(leg, tier, 0)
+        except Inconclusive:
+            continue
+        vs = [x for x in d.get("violations", []) if prop in x.get("tags", []) or "*" in x.get("tags", [])]
+        if not vs:
+            vs = d.get("violations", [])
+        if vs:
+            return {"found_by": "bounded:" + leg, "input": vs[0]}
     return None
 
 
@@ -58,18 +163,69 @@ def replay(path):
 
 
 # ------------------------------------------------------------------------------------------------ configuration
-CORE_NOT_REACHED = ["sqlite/src/lib.rs is SQL text executed by a C library: no deductive contract; see bounded_checks",
-                    "the HTTP layer is verified against actix-web stand-ins (A9), not against actix-web itself"]
+# (placed after the leg definitions)
+def _configure():
+    NR_SQL = "sqlite/src/lib.rs is SQL text executed by a C library: no deductive contract can be discharged for it; it is covered only by the bounded legs (bounded_checks), never counted under obligations"
+    NR_HTTP = "the HTTP layer is verified against actix-web stand-ins (A9): routing macros, web::Path extraction, middleware application and the real socket are not reached"
+    NR_MEM = "core/src/inmemory.rs: locking (Mutex) is not modelled (A3)"
+    cfg("C01", "proof", ["A1", "A2", "A4", "A6", "A8", "A11", "A13"], assumptions=[A["A1"], A["A8"]], not_reached=[NR_SQL, NR_MEM],
+        explanation="chain_wf (one unbranched chain, child index = inverse of parent links, no orphans, snapshot on chain) is an invariant: preserved by every contracted operation (av.inv, snap.inv, read-only clauses), the storage preconditions that protect it are discharged at every call site (st.*.pre), and the history lemmas (unit L) lift it to all finite histories and to the walk from the base",
+        legs=[EXPLORE, INTERLEAVE])
+    cfg("C02", "proof", ["A1", "A4", "A6", "A8", "A11", "A12", "A13"], assumptions=[A["A1"], A["A8"]], not_reached=[NR_SQL, NR_HTTP],
+        explanation="postconditions av.accept_iff / av.accepted_state / av.rejected / av.id_from_v4 / av.ack_after_commit of the real Server::add_version, for every abstract pre-state satisfying chain_wf, every parent id, payload and placement of storage faults; enc.av for the HTTP entry point",
+        legs=[EXPLORE])
+    cfg("C03", "proof", ["A3", "A4", "A5", "A13"], assumptions=[A["A3"], A["A5"], "the reduction from interleavings to the three sequential obligations O1-O3 is a paper argument (DESIGN.md 5.C03), not machine-checked"],
+        not_reached=["lock-wait budget / busy timeouts; anything inside SQLite or Mutex; partial overlap inside a transaction is excluded by A3/A5, not checked", NR_SQL],
+        explanation="three sequential obligations: O1 every Server operation uses exactly one transaction opened for its own client (E9 twin + may_open); O2 every storage precondition in a handler is established inside the same transaction (Server::txn returns an arbitrary invariant-satisfying state); O3 effects reach durable state only through one commit and success is reported only after it",
+        legs=[INTERLEAVE])
+    cfg("C05", "proof", ["A4", "A5", "A6", "A13"], assumptions=[A["A5"]],
+        not_reached=["error propagation inside sqlite/src/lib.rs itself (a swallowed rusqlite error there is invisible to Verus; the bounded fault leg injects faults at the StorageTxn boundary only)", NR_HTTP],
+        explanation="the storage contract lets every call fail (fault counter); *.err_only_on_fault, av.err_atomic, *.ack_after_commit, *.drop_clean and enc.* (Other => 500) are proved for every placement of failures",
+        legs=[FAULTS])
+    cfg("C06", "proof", ["A2", "A4", "A9", "A13"], not_reached=[NR_SQL, NR_HTTP],
+        explanation="Seq<u8> equalities end to end: handler passes exactly the concatenation of the chunks for every chunking (body.loop.*), library stores and returns the same sequence (av.accepted_state, gcv.found, gs.pair), handlers put exactly those bytes in the response body (enc.*)",
+        legs=[EXPLORE])
+    cfg("C07", "proof", ["A1", "A4", "A13"], assumptions=[A["A1"]], not_reached=[NR_SQL, NR_MEM],
+        explanation="every operation's postcondition fixes the whole post-state as a function of the pre-state in which existing versions / child links are only ever extended (add_version_spec inserts a fresh key; all other outcomes leave the maps equal); lemma L.immutable",
+        legs=[EXPLORE])
+    cfg("C08", "proof", ["A4", "A6", "A11", "A13"], not_reached=[NR_SQL, NR_HTTP],
+        explanation="gcv.found / gcv.split / gcv.nosuch of the real Server::get_child_version share the spec fn accept() with av.accept_iff of Server::add_version",
+        legs=[EXPLORE])
+    cfg("C09", "proof", ["A2", "A4", "A9", "A13"], not_reached=[NR_SQL, NR_MEM, "header parsing by actix"],
+        explanation="frame clauses: every storage write is a whole-database equation cur' = cur[client := n]; every Server operation changes at most its own client's durable state (*.frame) through a transaction opened for its own id (E9 twin); the client id comes only from the header (hdr.ok); two-run lemma L.isolation",
+        legs=[EXPLORE])
+    cfg("C10", "proof", ["A4", "A6", "A10", "A11", "A13"], not_reached=[NR_SQL],
+        explanation="acceptance predicate snap_should_accept written from the statement (literal 5; corner v = non-nil base left free); loop invariant of the bounded walk; declined => untouched; success either way",
+        legs=[EXPLORE])
+    cfg("C11", "proof", ["A4", "A6", "A13"], not_reached=[NR_SQL, "schedules (AddSnapshot overlapping GetSnapshot) only via C03's reduction"],
+        explanation="gs.pair / gs.none (id and bytes of the stored snapshot, both written by one set_snapshot call: snap.applied), chain_wf's snapshot conjunct (snapshot version on the chain or its base) preserved by every operation, walk lemma L.snap_base",
+        legs=[EXPLORE])
+    cfg("C12", "proof", ["A7", "A8", "A10", "A12", "A13"], assumptions=[A["A7"], A["A8"]], not_reached=[NR_SQL, "the wall clock (A10)", "configuration wiring in main (C17)"],
+        explanation="threshold functions equal floor(3t/2)/t spec for ALL targets without overflow (Verus over all i64/u32), urgency = max of both from the pre-request record (av.urgency), counter bumped by add_version_spec and reset by new_snap (storage contract)",
+        legs=[EXPLORE, KANI_URGENCY])
+    cfg("C13", "exploration", ["A13"], not_reached=["the SQLite side is ONLY bounded; proved part: server.rs never calls storage outside the documented preconditions (st.*.pre call-site obligations) and the contract is functional"],
+        explanation="bounded: the same executable contract is the oracle for all three backend configurations (in-memory, SQLite, SQLite re-opened before every request), so equal histories give equal responses up to ids/clock",
+        legs=[EXPLORE])
+    cfg("C14", "proof", ["A9", "A11", "A13"], assumptions=[A["A9"]], not_reached=[NR_HTTP],
+        explanation="enc.* postconditions of the four real handlers and server_error_to_actix / failure_to_ise: for EVERY possible library outcome the status, exact header list, content type and body are as the statement says (relative to the actix stand-ins)",
+        legs=[HTTP])
+    cfg("C15", "proof", ["A9", "A11", "A12", "A13"], assumptions=[A["A9"]], not_reached=[NR_HTTP, "malformed path ids, unknown routes/methods: actix routing, assumed"],
+        explanation="hdr.* / refuse.* / body.loop.*: any header bytes, content type and chunk stream either reach the library with exactly flat(chunks) (0 < size <= 100 MiB inclusive) or are refused with 4xx and an unchanged call log; no arithmetic overflow",
+        legs=[HTTP])
+    cfg("C16", "proof", ["A2", "A9", "A13"], assumptions=[A["A9"]], not_reached=[NR_HTTP, "WebServer::new wiring (one constructor call) is covered by the bounded HTTP leg only"],
+        explanation="client_id_header's postconditions (hdr.*) + the `authorised` precondition on every library entry point reachable from the handlers (auth.pre.*): a handler cannot reach the library, not even to open a transaction, for an id the allow-list excludes; 403 => call log unchanged",
+        legs=[HTTP])
+    cfg("C18", "proof", ["A4", "A6", "A11", "A13"], not_reached=[NR_SQL],
+        explanation="every non-mutating outcome (reads, conflict, declined snapshot, unknown client, refused request) leaves the whole transaction view / call log equal up to the fault counter",
+        legs=[EXPLORE])
 
-cfg("C02", "proof", ["A1", "A4", "A6", "A8", "A11", "A12", "A13"],
-    assumptions=[A["A1"], A["A8"]],
-    not_reached=CORE_NOT_REACHED,
-    explanation="postconditions av.accept_iff / av.accepted_state / av.rejected / av.id_from_v4 / av.ack_after_commit of the real Server::add_version, proved for every abstract pre-state satisfying chain_wf, every parent id, every payload and every placement of storage faults")
-cfg("C08", "proof", ["A4", "A6", "A11", "A13"], not_reached=CORE_NOT_REACHED,
-    explanation="gcv.found / gcv.split / gcv.nosuch of the real Server::get_child_version share the spec fn accept() with av.accept_iff of Server::add_version")
-cfg("C10", "proof", ["A4", "A6", "A10", "A11", "A13"], not_reached=CORE_NOT_REACHED,
-    explanation="acceptance predicate snap_should_accept written from the property statement (literal 5, corner v = non-nil base left free); loop invariant of the bounded walk; all proved on the real Server::add_snapshot")
-cfg("C12", "proof", ["A7", "A8", "A10", "A12", "A13"], not_reached=CORE_NOT_REACHED + ["the wall clock (A10)", "configuration wiring in main (C17)"],
-    explanation="urgency threshold functions equal the mathematical spec for all targets, overflow-free (Verus), av.urgency computed from the pre-request record")
-cfg("C18", "proof", ["A4", "A6", "A11", "A13"], not_reached=CORE_NOT_REACHED,
-    explanation="every non-mutating outcome leaves the transaction view (durable, cur, dirty) equal up to the fault counter")
+
+KANI_URGENCY = {"name": "kani:urgency", "tiers": ("thorough",), "run": lambda prop, tier, seed: kani_urgency(), "required": False}
+HTTP = bounded("http", "requests through the real actix handlers (in process): outcome encoding compared with the executable contract, body chunkings and sizes, malformed requests, allow-lists, Cache-Control")
+
+
+def kani_urgency():
+    raise Inconclusive("kani leg not built yet")
+
+
+_configure()
